@@ -30,6 +30,7 @@ package core
 
 //@ func IsConnectionError
 //@   property C02 C04
+//@   safety
 //@   ensures res == connErr(err)
 
 //@ functype ProxyFunc
@@ -51,6 +52,7 @@ package core
 
 //@ func (h *RetryHandler) buildFinalError
 //@   property C04
+//@   safety
 //@   defines finalErr(res)
 //@   ensures res != nil && fresh(res)
 
@@ -70,6 +72,7 @@ package core
 
 //@ func (h *RetryHandler) resetRequestBodyForRetry
 //@   property C01 C02
+//@   safety
 //@   requires r != nil
 //@   modifies r.Body, ghost remaining
 //@   ensures !isnil(bodyBytes) && attemptCount > 0 ==> ghost(r.Body).remaining == bytesContent(bodyBytes)
@@ -103,6 +106,7 @@ package core
 
 //@ func (h *RetryHandler) removeFailedEndpoint
 //@   property C04
+//@   safety
 //@   requires allNonNil(endpoints) && failedEndpoint != nil
 //@   loop 1 invariant 0 <= i && i <= len(endpoints)
 //@   loop 1 invariant forall k int :: 0 <= k && k < i ==> endpoints[k].Name != failedEndpoint.Name
@@ -114,6 +118,7 @@ package core
 
 //@ func hasConnectionError
 //@   property C02 C04
+//@   safety
 //@   loop 1 invariant forall pi int :: 0 <= pi && pi < i$1 ==> !contains(errStr, connectionErrors[pi])
 //@   ensures len(connectionErrors) == 9
 //@   ensures res == (err != nil && hasConnText(err))
@@ -171,25 +176,30 @@ package core
 
 //@ func isHopByHopHeader
 //@   property C15
+//@   safety
 //@   ensures res == hopHeader(header)
 
 //@ func extractClientIP
 //@   property C15 C17
+//@   safety
 //@   requires r != nil
 //@   ensures true
 
 //@ func GetProxiedByHeader
 //@   property C15
+//@   safety
 //@   ensures true
 
 //@ func GetViaHeader
 //@   property C15
+//@   safety
 //@   ensures true
 
 //@ spec func fwdHeader(k string) bool = k == "X-Forwarded-For" || k == "X-Forwarded-Proto" || k == "X-Forwarded-Host"
 
 //@ func updateForwardedHeaders
 //@   property C15
+//@   safety
 //@   requires proxyReq != nil && originalReq != nil && proxyReq.Header != nil && proxyReq.Header != originalReq.Header
 //@   modifies proxyReq.Header[all]
 //@   ensures proxyReq.Header == old(proxyReq.Header)
@@ -200,6 +210,7 @@ package core
 
 //@ func CopyHeaders
 //@   property C15
+//@   safety
 //@   uses olla_headers_benign
 //@   requires proxyReq != nil && originalReq != nil && proxyReq != originalReq
 //@   requires proxyReq.Header == nil || (proxyReq.Header != originalReq.Header && (forall k string :: !has(proxyReq.Header, k)))
@@ -279,6 +290,7 @@ package core
 
 //@ func (b *BaseProxyComponents) RecordSuccess
 //@   property C19
+//@   safety
 //@   requires b != nil
 //@   modifies b.Stats, ProxyStats.SuccessfulRequests, ProxyStats.TotalLatency, ProxyStats.MinLatency, ProxyStats.MaxLatency, gvar colSuccess, gvar colError
 //@   records recSuccess = old(recSuccess) + 1
@@ -405,6 +417,7 @@ package core
 //@ ghost var reqCount int
 //@ func (b *BaseProxyComponents) IncrementRequests
 //@   property C19
+//@   safety
 //@   requires b != nil
 //@   modifies b.totalRequests, b.Stats, ProxyStats.TotalRequests
 //@   records reqCount = old(reqCount) + 1
